@@ -46,6 +46,10 @@ CHECKS = {
          "15 data sets x every permutation (<= 6 points) x 6 input forms x linear/quadratic/general fits are compared with the exact rational solution of the normal equations (coefficients 1e-6 relative, residual orthogonality), plus the fit-to-fit relations, the correlation identities and the degenerate sets.",
          "Real-valued quantifier: finite alphabet of data sets; 'well-conditioned' is fixed as det(A)/prod(diag A) >= 1e-6 of the exact normal matrix.",
          "DESIGN.md 3/C17"),
+ "C05": (EX, "exhaustive Cartesian lattice of directions x obliquities / observer latitudes per conversion pair, each conversion compared with an independent rotation-matrix image, its inverse and pairwise angle preservation; separation lattice 1e-7..179.999 deg",
+         "Full product of 63 longitudes (seam values + grid) x 25 latitudes (poles and 1e-6..1 deg from them) x 5 obliquities / 12 observer latitudes / galactic, both directions of each pair, against vector algebra on the sphere (1e-9 deg); all ordered pairs of a 40-direction subset for rigidity; 1 120 constructed pairs for the separation / position-angle metric and 400 triples for the enclosing circle.",
+         "Real-valued quantifier: verdict holds on the lattice (poles, seam, code constants +- small offsets); oracle arithmetic is double precision vector algebra (error ~1e-13 deg).",
+         "DESIGN.md 3/C05"),
 }
 
 NOT_YET = {}
